@@ -46,6 +46,21 @@ Theorem C04_not_better : forall n vs v i f,
 Proof. exact rollup_not_better. Qed.
 Print Assumptions C04_not_better.
 
+(* adding the result of one more test never makes the roll-up better at any position *)
+Theorem C04_monotone : forall n v vs i, (i < n)%nat ->
+  (prio (nth i (rollup n vs) MISSING) <= prio (nth i (rollup n (v :: vs)) MISSING))%nat.
+Proof. exact rollup_monotone. Qed.
+Print Assumptions C04_monotone.
+
+(* the roll-up of a single flag vector is that vector; rolling up a roll-up changes nothing *)
+Theorem C04_single : forall n fl, length fl = n -> rollup n [lift fl] = fl.
+Proof. exact rollup_single. Qed.
+Print Assumptions C04_single.
+
+Theorem C04_idem : forall n vs, rollup n [lift (rollup n vs)] = rollup n vs.
+Proof. exact rollup_idem. Qed.
+Print Assumptions C04_idem.
+
 (* the model on equal-length inputs is the roll-up the laws are about *)
 Theorem C04_model_rollup : forall n v vs, same_len n (v :: vs) ->
   compare_model priorities (v :: vs) = Flags (rollup n (v :: vs)).
